@@ -718,11 +718,13 @@ func (obj *SparseReal64Matrix) JointIterator(b ConstMatrix) MatrixJointIterator 
 }
 func (obj *SparseReal64Matrix) ITERATOR() *SparseReal64MatrixIterator {
   r := SparseReal64MatrixIterator{*obj.values.ITERATOR(), obj}
+  r.skipOutside()
   return &r
 }
 func (obj *SparseReal64Matrix) ITERATOR_FROM(i, j int) *SparseReal64MatrixIterator {
   k := obj.index(i, j)
   r := SparseReal64MatrixIterator{*obj.values.ITERATOR_FROM(k), obj}
+  r.skipOutside()
   return &r
 }
 func (obj *SparseReal64Matrix) JOINT_ITERATOR(b ConstMatrix) *SparseReal64MatrixJointIterator {
@@ -743,6 +745,20 @@ type SparseReal64MatrixIterator struct {
 }
 func (obj *SparseReal64MatrixIterator) Index() (int, int) {
   return obj.m.ij(obj.SparseReal64VectorIterator.Index())
+}
+// the iterator runs over the entries of the underlying storage; entries that
+// do not belong to this (sliced) view are skipped
+func (obj *SparseReal64MatrixIterator) Next() {
+  obj.SparseReal64VectorIterator.Next()
+  obj.skipOutside()
+}
+func (obj *SparseReal64MatrixIterator) skipOutside() {
+  for obj.SparseReal64VectorIterator.Ok() {
+    if i, j := obj.Index(); i >= 0 && i < obj.m.rows && j >= 0 && j < obj.m.cols {
+      break
+    }
+    obj.SparseReal64VectorIterator.Next()
+  }
 }
 func (obj *SparseReal64MatrixIterator) Clone() *SparseReal64MatrixIterator {
   return &SparseReal64MatrixIterator{*obj.SparseReal64VectorIterator.Clone(), obj.m}
